@@ -25,7 +25,8 @@
     solar time and position (`_calculate_solar_time`, `calculate_sun_from_date_time`)
       `solarTime hour eot lonRad tz isSolar` (hours), `hourAngle solTimeMinutes` (degrees),
       `cosZenith latRad dec haDeg`, `refraction alt` (arc seconds), `azInit latRad dec zenith`,
-      `azimuthOf ha azInit`, `clampUnit`, `azimuthAt latRad dec zenith ha`,
+      `azimuthOf ha azInit` (= guard around `azimuthTry`), `clampUnit`, `azimuthAt latRad dec zenith ha`,
+      `sunriseHourAngleRaw latRad dec depRad` (expression of `_calculate_sunrise_hour_angle`),
       `position latRad lonRad tz hour jd isSolar` = (altitude, azimuth)
     Sunpath setters
       `latitudeRad latDeg` (pole nudge 1e-9), `timeZoneOf lonRad tz?`
@@ -202,6 +203,24 @@ def azimuthOf (ha a : α) : α :=
   if a < -1.0 ∨ 1.0 < a then (if 0.0 < a then 180.0 else 0.0)
   else if 0.0 < ha then pyMod (deg (Transc.acos a) + 180.0) 360.0
   else pyMod (540.0 - deg (Transc.acos a)) 360.0
+
+/-- The `if hour_angle > 0 … else …` inside the `try` of the azimuth computation (the part of
+    `azimuthOf` that runs when `math.acos` does not raise): see `azimuthOf_eq_try`. -/
+def azimuthTry (ha a : α) : α :=
+  if 0.0 < ha then pyMod (deg (Transc.acos a) + 180.0) 360.0
+  else pyMod (540.0 - deg (Transc.acos a)) 360.0
+
+omit [LE α] [DecidableLE α] in
+/-- `azimuthOf` is the `ValueError` guard around `azimuthTry`. -/
+theorem azimuthOf_eq_try (ha a : α) :
+    azimuthOf ha a =
+      if a < -1.0 ∨ 1.0 < a then (if 0.0 < a then 180.0 else 0.0) else azimuthTry ha a := rfl
+
+/-- The expression of `_calculate_sunrise_hour_angle` (degrees), without the `ValueError` of
+    `math.acos` (which the C11 model `SunTimes.sunriseHourAngle` adds as `none`). -/
+def sunriseHourAngleRaw (latRad dec depRad : α) : α :=
+  deg (Transc.acos (Transc.cos ((pi : α) / 2.0 + depRad) / (Transc.cos latRad * Transc.cos dec) -
+    Transc.tan latRad * Transc.tan dec))
 
 /-- `max(-1.0, min(1.0, x))`: the clamp applied to the cosine of the zenith angle (REPAIRED by
     fixes/C05_zenith_sun.patch; the pinned code passed `x` to `acos` unclamped and raised
